@@ -95,9 +95,17 @@ fn drivers_for_type(ty: usize, args: [u32; 3]) -> Vec<(usize, [u32; 3])> {
         "ift::Ift" => vec![(drv("ift"), [0, 0, 0])],
         "ift::GlyphPatches" => vec![(drv("ift"), [args[0], 0, 1])],
         "cmap::Cmap" => vec![(drv("cmap"), [0, 0, 0])],
-        "gsub::Gsub" => vec![(drv("layout"), [0, 0, tagu(b"GSUB")])],
-        "gpos::Gpos" => vec![(drv("layout"), [0, 0, tagu(b"GPOS")])],
-        "gdef::Gdef" => vec![(drv("layout"), [0, 0, tagu(b"GDEF")]), (drv("ivs"), [0, 0, tagu(b"GDEF")])],
+        "gsub::Gsub" => vec![(drv("layout"), [0, 0, tagu(b"GSUB")]), (drv("layout2"), [0, 0, tagu(b"GSUB")])],
+        "gpos::Gpos" => vec![(drv("layout"), [0, 0, tagu(b"GPOS")]), (drv("layout2"), [0, 0, tagu(b"GPOS")])],
+        "gdef::Gdef" => vec![
+            (drv("layout"), [0, 0, tagu(b"GDEF")]),
+            (drv("ivs"), [0, 0, tagu(b"GDEF")]),
+            (drv("layout2"), [0, 0, tagu(b"GDEF")]),
+        ],
+        "gpos::AnchorTable" => vec![(drv("layout2"), [0, 0, 4])],
+        "layout::DeviceOrVariationIndex" | "layout::Device" | "layout::VariationIndex" => vec![(drv("layout2"), [0, 0, 3])],
+        "aat::Lookup" => vec![(drv("aat"), [0, 0, 0])],
+        "avar::Avar" => vec![(drv("ivs"), [0, 0, tagu(b"avar")])],
         "gvar::Gvar" => vec![(drv("gvar"), [0, 0, 0])],
         "cvar::Cvar" => vec![(drv("cvar"), [1, 0, 0])],
         "name::Name" => vec![(drv("name"), [0, 0, 0])],
@@ -207,7 +215,8 @@ fn table_seeds(font_name: &str, font: &FontRef, out: &mut Vec<Seed>, st: &mut Se
             b"avar" => {
                 ctx = vec![get(b"fvar")];
                 let d = drv("fvar");
-                drivers_of = Box::new(move |_| vec![(d, [0, 0, 1])]);
+                let iv = drv("ivs");
+                drivers_of = Box::new(move |_| vec![(d, [0, 0, 1]), (iv, [0, 0, tagu(b"avar")])]);
             }
             b"CFF " => {
                 ty = None;
@@ -231,6 +240,10 @@ fn table_seeds(font_name: &str, font: &FontRef, out: &mut Vec<Seed>, st: &mut Se
                 let d = drv("bitmap");
                 drivers_of = Box::new(move |_| vec![(d, [0, 0, 3])]);
             }
+            b"cvt " => {
+                let d = drv("raw");
+                drivers_of = Box::new(move |_| vec![(d, [0, 0, tagu(b"cvt ")])]);
+            }
             b"IFT " | b"IFTX" => {
                 ty = registry::find("ift::Ift");
                 let d = drv("ift");
@@ -240,6 +253,24 @@ fn table_seeds(font_name: &str, font: &FontRef, out: &mut Vec<Seed>, st: &mut Se
         }
         // sub-blob seeds: individual glyphs, charstrings and DICTs get their own (small) seeds so that
         // deviations — including all pairs — land inside the hand-written decoders
+        if &tb == b"gvar" {
+            let glyf = get(b"glyf");
+            let loca = get(b"loca");
+            if !glyf.is_empty() && !loca.is_empty() {
+                let n = data.len();
+                out.push(Seed {
+                    name: format!("{}#gvar+glyf+loca", font_name),
+                    class: "table",
+                    ty: None,
+                    args: [0; 3],
+                    drivers: vec![(drv("gvar2"), [is_long, num_glyphs, 0])],
+                    data: data.clone(),
+                    ctx: vec![glyf, loca],
+                    pos_limit: n,
+                    extra_trunc: vec![],
+                });
+            }
+        }
         match &tb {
             b"glyf" => {
                 use read_fonts::tables::loca::Loca;
@@ -470,6 +501,19 @@ pub fn build_seeds(tier: Tier) -> (Vec<Seed>, SeedStats) {
                 extra_trunc: vec![],
             });
         }
+    }
+    for (k, nm) in [(1u32, "aat::StateTable"), (2, "aat::ExtendedStateTable")] {
+        out.push(Seed {
+            name: format!("zero>{nm}"),
+            class: "zero",
+            ty: None,
+            args: [0; 3],
+            drivers: vec![(drv("aat"), [0, 0, k])],
+            data: vec![0u8; zl],
+            ctx: vec![],
+            pos_limit: zl,
+            extra_trunc: vec![],
+        });
     }
     // (iv-b) types whose fixed-size part is longer than the zero-buffer bound: the shortest all-zero
     // buffer (from a fixed ladder of lengths) that reads successfully becomes an ordinary seed
